@@ -1161,12 +1161,13 @@ def request(client, port, opname, args, kwargs):
         return ("error", "%s: %s" % (type(e).__name__, str(e)[:200]))
 
 
-def reply_xml(iface, op, v):
+def reply_xml(iface, op, v, empty_out=None):
     """The reply document the abstract interface prescribes for value `v` (a
     VObj of op.out_type), written with fixed prefixes."""
     from . import family as F
     from xml.sax.saxutils import escape, quoteattr
     S = iface.S
+    empties = []
 
     def emit(e, val, out):
         tag = ("n%d:%s" % (e.ns, e.name)) if e.qualified else e.name
@@ -1191,7 +1192,7 @@ def reply_xml(iface, op, v):
             a = ' xsi:type="n%d:%s"' % (real.ns, real.name)
         out.append(obj_xml(tag, a, real, val))
 
-    def obj_xml(tag, a, real, val):
+    def obj_xml(tag, a, real, val, top=False):
         fields = dict(val.fields)
         kids = []
         for p, _ in S.flat(real):
@@ -1200,11 +1201,15 @@ def reply_xml(iface, op, v):
         for at in S.all_attrs(real):
             if "_" + at.name in fields:
                 a += " %s=%s" % (at.name, quoteattr(fields["_" + at.name][2]))
+        if not kids and not top and all(not k.startswith("_") for k in fields):
+            empties.append(tag)       # an element of complex type without any content or attribute
         return "<%s%s>%s</%s>" % (tag, a, "".join(kids), tag)
 
     t = S.type(*op.out_type)
     nsd = " ".join('xmlns:n%d="%s"' % (i, u) for i, (u, _) in enumerate(S.namespaces))
-    body = obj_xml("n0:%sResponse" % op.name, "", t, v)
+    body = obj_xml("n0:%sResponse" % op.name, "", t, v, top=True)
+    if empty_out is not None:
+        empty_out.extend(empties)
     return ('<?xml version="1.0" encoding="UTF-8"?><env:Envelope xmlns:env="%s" xmlns:xsi="%s" %s>'
             '<env:Body>%s</env:Body></env:Envelope>' % (F.SOAPENV, F.XSI, nsd, body)).encode("utf-8")
 
@@ -1962,8 +1967,22 @@ def run_render(ck, unproved):
                 if op.style == "wrapped" and op.out_type is not None:
                     I = F.new_interner()
                     E = ObsEnc(S, I)
-                    v = strip_anon(iface, F.gen_object(rng, S, S.type(*op.out_type), depth=0, typed=False))
-                    rx = reply_xml(iface, op, v)
+                    # A reply member of complex type with neither content nor attributes is the input class of
+                    # the listed finding C02:empty-complex-element-as-empty-string ('' or, "when nillable", None,
+                    # instead of an empty object).  Whether "nillable" is seen there depends on how the type is
+                    # written (Binding.get_reply hands the RESOLVED type of a top-level reply member to the
+                    # unmarshaller: a named type has lost the element's nillable, an anonymous one resolves to
+                    # the element itself), so on that input class renderings differ for the same root cause.
+                    # Replies are generated outside that class; the comparison itself is unchanged.
+                    for attempt in range(12):
+                        v = strip_anon(iface, F.gen_object(rng, S, S.type(*op.out_type), depth=0, typed=False))
+                        empties = []
+                        rx = reply_xml(iface, op, v, empties)
+                        if not empties:
+                            break
+                    if empties:
+                        ck.count("replies-skipped-empty-complex-member")
+                        continue
                     ds, keys = observe_all("reply " + op.name,
                                            lambda c, op=op, rx=rx: decode_reply(c, "port_document", op.name, rx, kept),
                                            rx.decode("utf-8"))
